@@ -230,60 +230,74 @@ def rule_ld_pairing(mod, rep):
                       "%s is addressed with a stride other than %s" % (arr, ld) if bad else "no strided access to %s found" % arr, bad[0].loc if bad else f.file, f.name)
 
 
+def _beta0_guarded(mod, f, ky):
+    """number of stores of zero into the vector passed as parameter ky of f that are guarded by a test beta == 0"""
+    zero_stores = []
+    zroots = set()
+    for s in f.insts():
+        isz = False
+        if s.op == "store" and any(p[0] == ("A", ky) for p in f.addr_paths(s)):
+            v = s.ops[0]
+            if (v[0] == "f" and v[1] == 0.0) or v[0] == "zero":
+                isz = True
+            elif v[0] == "v" and f.inst[v[1]].op == "load" and any(p[0][0] in ("L", "G") for p in f.addr_paths(f.inst[v[1]])):
+                # complex: copy of a local/constant zero struct
+                isz = True
+        if s.op == "call" and (s.callee or "").startswith("llvm.memcpy") and any(p[0] == ("A", ky) for p in f.paths(s.ops[0])):
+            isz = True
+            zroots |= {p[0] for p in f.paths(s.ops[1]) if p[0][0] in ("L", "G")}
+        if isz:
+            zero_stores.append(s)
+    # a root counts as the zero constant only if every write to it is a zero fill / zero store
+    def _is_zero_root(r):
+        if r[0] == "G":
+            g = mod.globals.get(r[1]) if hasattr(mod, "globals") else None
+            return bool(g and g.get("zeroinit"))
+        ws = 0
+        for x in f.insts():
+            if x.op == "store" and any(p[0] == r for p in f.addr_paths(x)):
+                if not ((x.ops[0][0] == "f" and x.ops[0][1] == 0.0) or x.ops[0][0] == "zero"):
+                    return False
+                ws += 1
+            if x.op == "call" and (x.callee or "").startswith("llvm.mem") and any(p[0] == r for p in f.paths(x.ops[0])):
+                if not ((x.callee or "").startswith("llvm.memset") and is_const(x.ops[1], 0)):
+                    return False
+                ws += 1
+        return ws > 0
+    zroots = {r for r in zroots if _is_zero_root(r)}
+    zero_stores = [s for s in zero_stores if not (s.op == "call" and not any(p[0] in zroots for p in f.paths(s.ops[1])))]
+    guarded = 0
+    from .pivot import _cd_closure
+    for s in zero_stores:
+        for (a, sid) in _cd_closure(f, s.bb.id):
+            t = f.blocks[a].insts[-1]
+            if t.op == "br" and t.ops and t.ops[0][0] == "v":
+                C = f.inst[t.ops[0][1]]
+                if C.op == "fcmp" and C.pred in ("oeq", "une", "ueq", "one") and any(o[0] == "f" and o[1] == 0.0 for o in C.ops):
+                    guarded += 1
+                    break
+                if C.op == "fcmp" and C.pred in ("oeq", "une", "ueq", "one") and zroots and any(
+                        o[0] == "v" and f.inst[o[1]].op == "load" and any(p[0] in zroots for p in f.addr_paths(f.inst[o[1]])) for o in C.ops):
+                    guarded += 1      # complex: z_eq(&beta, &comp_zero) is a macro comparing against the fields of the local zero constant
+                    break
+    return guarded
+
+
 def rule_gemv_beta0(mod, rep):
     rep.rule("GEMV-BETA0", "sp_?gemv: when beta == 0, y is assigned zero (it 'need not be set on input'), not multiplied by beta - a store of the constant 0 into y[] "
-             "guarded by the test beta == 0 exists for the unit-stride and the strided case", floor=4)
+             "guarded by the test beta == 0 exists (in sp_?gemv itself or in a static helper that receives y)", floor=4)
+    from .ext import _owned_helpers
     for prec, f in fam(mod, "sp_?gemv"):
         rep.scope([f.name])
         ky = f.pindex("y")
-        zero_stores = []
-        zroots = set()
-        for s in f.insts():
-            isz = False
-            if s.op == "store" and any(p[0] == ("A", ky) for p in f.addr_paths(s)):
-                v = s.ops[0]
-                if (v[0] == "f" and v[1] == 0.0) or v[0] == "zero":
-                    isz = True
-                elif v[0] == "v" and f.inst[v[1]].op == "load" and any(p[0][0] in ("L", "G") for p in f.addr_paths(f.inst[v[1]])):
-                    # complex: copy of a local/constant zero struct
-                    isz = True
-            if s.op == "call" and (s.callee or "").startswith("llvm.memcpy") and any(p[0] == ("A", ky) for p in f.paths(s.ops[0])):
-                isz = True
-                zroots |= {p[0] for p in f.paths(s.ops[1]) if p[0][0] in ("L", "G")}
-            if isz:
-                zero_stores.append(s)
-        # a root counts as the zero constant only if every write to it is a zero fill / zero store
-        def _is_zero_root(r):
-            if r[0] == "G":
-                g = mod.globals.get(r[1]) if hasattr(mod, "globals") else None
-                return bool(g and g.get("zeroinit"))
-            ws = 0
-            for x in f.insts():
-                if x.op == "store" and any(p[0] == r for p in f.addr_paths(x)):
-                    if not ((x.ops[0][0] == "f" and x.ops[0][1] == 0.0) or x.ops[0][0] == "zero"):
-                        return False
-                    ws += 1
-                if x.op == "call" and (x.callee or "").startswith("llvm.mem") and any(p[0] == r for p in f.paths(x.ops[0])):
-                    if not ((x.callee or "").startswith("llvm.memset") and is_const(x.ops[1], 0)):
-                        return False
-                    ws += 1
-            return ws > 0
-        zroots = {r for r in zroots if _is_zero_root(r)}
-        zero_stores = [s for s in zero_stores if not (s.op == "call" and not any(p[0] in zroots for p in f.paths(s.ops[1])))]
-        guarded = 0
-        from .pivot import _cd_closure
-        for s in zero_stores:
-            for (a, sid) in _cd_closure(f, s.bb.id):
-                t = f.blocks[a].insts[-1]
-                if t.op == "br" and t.ops and t.ops[0][0] == "v":
-                    C = f.inst[t.ops[0][1]]
-                    if C.op == "fcmp" and C.pred in ("oeq", "une", "ueq", "one") and any(o[0] == "f" and o[1] == 0.0 for o in C.ops):
-                        guarded += 1
-                        break
-                    if C.op == "fcmp" and C.pred in ("oeq", "une", "ueq", "one") and zroots and any(
-                            o[0] == "v" and f.inst[o[1]].op == "load" and any(p[0] in zroots for p in f.addr_paths(f.inst[o[1]])) for o in C.ops):
-                        guarded += 1      # complex: z_eq(&beta, &comp_zero) is a macro comparing against the fields of the local zero constant
-                        break
+        guarded = _beta0_guarded(mod, f, ky)
+        for (h, call, g) in _owned_helpers(mod, f):
+            if g is not f:
+                continue
+            for k, o in enumerate(call.ops):
+                if any(p == (("A", ky),) for p in f.paths(o)) and k < len(h.params):
+                    rep.scope([h.name])
+                    guarded += _beta0_guarded(mod, h, k)
         rep.check(guarded >= 1, "GEMV-BETA0", "%s#beta0" % f.name, "y := 0 under beta == 0 (%d guarded zero stores)" % guarded,
                   "no assignment y := 0 for beta == 0 (NaN/Inf already in y would propagate through 0*y)", f.file, f.name)
 
